@@ -231,7 +231,7 @@ def main():
             "guard": "verif",
             "enable": "go build -tags verif (harness module /verif/harness with replace => /repo)",
             "baseline_off_cmd": BASE_OFF,
-            "source_commits": ["fc07cc2", "0ec44c3", "589e4eb", "a59c8a3"],
+            "source_commits": ["fc07cc2", "0ec44c3", "589e4eb", "a59c8a3", "eea4351"],
             "add_only": True,
         },
         "engines": [
